@@ -801,9 +801,8 @@ fn odd_part(rep: &mut Report, pending: &mut Vec<Pending>, opts: &Opts) {
     let mut srcs: Vec<String> = fixed.iter().map(|s| s.to_string()).collect();
     // Reported finding (not claimed, see properties_conf.json assumptions): an absent key whose name is also a
     // function / macro name is a method reference that is never called; has() then fails with an Internal error
-    // instead of false.  Counted in the evidence; raised as an oracle failure only with VERIF_C08_METHOD_FIELDS=1
-    // (to be switched on together with a known_findings.json entry matching `why`).
-    let strict = std::env::var("VERIF_C08_METHOD_FIELDS").map(|v| v == "1").unwrap_or(false);
+    // instead of false.  Raised as an oracle failure (known_findings.json lists it by its `why`); VERIF_C08_METHOD_FIELDS=0 only counts it.
+    let strict = std::env::var("VERIF_C08_METHOD_FIELDS").map(|v| v != "0").unwrap_or(true);
     for name in ["size", "map", "filter", "has", "all", "min", "max", "type", "string", "int", "coalesce", "reduce"] {
         for (src, want) in [(format!("has(r1.{})", name), "b:0"), (format!("has(r1.m.{})", name), "b:0"), (format!("coalesce(r1.{}, 7)", name), "i:7")] {
             let out = run_src(&src, &cx);
